@@ -189,7 +189,7 @@ func TestC01(t *testing.T) {
 		N := c.Int("nodes", 1, 4)
 		cl, err := StartCluster(N, false, nil)
 		if err != nil {
-			c.Fatalf("harness: start cluster: %v", err)
+			c.Harnessf("start cluster: %v", err)
 		}
 		defer cl.Stop()
 		if !cl.WaitMembership(Deadline()) {
